@@ -7,16 +7,22 @@ import common
 
 ID = "C10"
 LEAN_MODEL_TARGETS = ["drv_c10"]
-LEAN_PROOF_TARGETS = ["PyroProps.C10"]
+LEAN_PROOF_TARGETS = ["PyroProps.C10", "PyroProps.C10Src"]
 AUDIT_FILES = ["PyroModel/Streams.lean", "PyroModel/StreamsRace.lean", "PyroModel/Lock.lean", "PyroModel/Gen/C10.lean",
-               "PyroProofs/Streams.lean", "PyroProofs/StreamsRace.lean", "PyroProofs/Lock.lean", "PyroProps/C10.lean"]
+               "PyroProofs/Streams.lean", "PyroProofs/StreamsRace.lean", "PyroProofs/Lock.lean", "PyroProps/C10.lean",
+               "PyroModel/StreamsSrc.lean", "PyroModel/StreamsSrcRun.lean", "PyroProofs/StreamsSrc.lean", "PyroProps/C10Src.lean"]
 THEOREMS = ["Pyro.C10.C10_gen_facts", "Pyro.C10.C10_gen_removal_tolerant", "Pyro.C10.C10_gen_housekeeping_locked",
             "Pyro.C10.C10_gen_environment", "Pyro.C10.C10_gen_expiry_probe", "Pyro.C10.C10_gen_disconnect_probe", "Pyro.C10.C10_prefix", "Pyro.C10.C10_next_exact", "Pyro.C10.C10_end", "Pyro.C10.C10_forgotten",
             "Pyro.C10.C10_forget_conditions", "Pyro.C10.C10_resume", "Pyro.C10.C10_quiescent", "Pyro.C10.C10_expiry_empties",
             "Pyro.C10.C10_client_refines", "Pyro.C10.C10_client_exact", "Pyro.C10.C10_client_close_forgets", "Pyro.C10.C10_client_survives_loss",
             "Pyro.C10.C10_sched_prefix", "Pyro.C10.C10_sched_no_masking", "Pyro.C10.C10_sched_strict_masks",
-            "Pyro.C10.C10_sched_cleanup_total", "Pyro.C10.C10_housekeeping_serial", "Pyro.Lock.atomic"]
-SUITES = ["histories", "interleavings"]
+            "Pyro.C10.C10_sched_cleanup_total", "Pyro.C10.C10_housekeeping_serial", "Pyro.Lock.atomic",
+            # the stream functions of server.py transcribed on every run (c10_tr.py -> Gen/C10.lean) = the model, for all inputs
+            "Pyro.C10.C10_getNext_translated", "Pyro.C10.C10_closeStream_translated", "Pyro.C10.C10_streamResponse_translated",
+            "Pyro.C10.C10_clientDisconnect_translated", "Pyro.C10.C10_housekeeping_translated", "Pyro.C10.C10_stepSrc_translated",
+            "Pyro.C10.C10_source_exec", "Pyro.C10.C10_source_prefix", "Pyro.C10.C10_source_next_exact",
+            "Pyro.C10.C10_source_forget_conditions", "Pyro.C10.C10_source_shutting_down", "Pyro.Streams.foldl_applyUpd"]
+SUITES = ["histories", "interleavings", "transcription"]
 RULE = ("(a) histories of <= 45 operations over 1-3 proxies / up to 6 streams on the REAL Daemon, DaemonObject and "
         "_StreamResultIterator (virtual clock, fake connections): call returning an iterator (custom iterator class, generator, "
         "list iterator; empty, long, raising at position k) or a plain value, next/close through the client iterator, unrelated "
@@ -93,8 +99,20 @@ def _lock_shape(fn, lockname):
 
 def extract():
     """facts by probing the real code (c10_probe.py); nothing depends on the spelling of the source"""
-    from props import c10_probe
-    return c10_probe.extract()
+    from props import c10_probe, c10_tr
+    facts = c10_probe.extract()
+    # the five stream functions of server.py, transcribed from the source as it is now (c10_tr.py: sound by refusal)
+    try:
+        src = c10_tr.lean_defs()
+    except c10_tr.Untranslatable:
+        # the tie is broken (the runner reports the extractor obligation and searches with the oracle).  So that model,
+        # driver and proofs still build and the correspondence run can look for a failing input, Gen/C10.lean gets the
+        # current facts plus the transcription of the tree the framework was built for (committed copy).
+        fb = open(os.path.join(os.path.dirname(os.path.abspath(__file__)), "c10_src_fallback.lean.txt")).read()
+        common.write_if_changed(os.path.join(common.LEAN, "PyroModel", "Gen", "C10.lean"),
+                                "import PyroModel.StreamsSrc\n" + facts + fb)
+        raise
+    return "import PyroModel.StreamsSrc\n" + facts + src
 
 
 def _seq_mask():
@@ -807,8 +825,16 @@ def _histories(ctx, n, judge_only=False):
         outs = common.run_driver("drv_c10", lines)
         ctx.corr_cases += len(lines)
         for (h, _), l, r, o in zip(cases, lines, reals, outs):
-            if r != o:
-                ctx.mismatch("histories", {"kind": "history", "history": h, "line": l}, r, o)
+            o_main, sep, o_src = o.rpartition(" | src:")
+            if not sep:
+                o_main, o_src = o, "missing"
+            if r != o_main:
+                ctx.mismatch("histories", {"kind": "history", "history": h, "line": l}, r, o_main)
+            if o_src != "ok":
+                # the functions transcribed from server.py (Gen/C10.lean) do not compute what the model computes on this history
+                ctx.mismatch("transcription", {"kind": "history", "history": h, "line": l}, "src:ok", "src:" + o_src)
+            else:
+                ctx.count("transcription:agrees")
     finally:
         restore()
 
